@@ -148,6 +148,9 @@ func runOne(k cg.Kind, data []byte) (res result) {
 				} else {
 					res.Term = "DLossless " + cg.PolygonT(v)
 				}
+				if v.IsFull() {
+					res.Tag = "(full)"
+				}
 				use = func() {
 					useRegion(v)
 					useShape(v)
